@@ -10,14 +10,16 @@ import proj
 
 
 def run(item):
+    import io, contextlib
     warnings.simplefilter("ignore")
     cls, P, h = item["cls"], item["P"], item["h"]
-    pep, f, part, exc = cc.replay(cls, P, h, names=item.get("names", "none"))
-    if not exc:
-        try:
-            f.set_class_constraints()
-        except Exception as e:      # observation
-            exc = "%s@set_class_constraints" % type(e).__name__
+    with contextlib.redirect_stdout(io.StringIO()):      # the classes print advice for edge parameters (mu = 0, ...)
+        pep, f, part, exc = cc.replay(cls, P, h, names=item.get("names", "none"))
+        if not exc:
+            try:
+                f.set_class_constraints()
+            except Exception as e:      # observation
+                exc = "%s@set_class_constraints" % type(e).__name__
     out = cc.project(cls, P, h, f, part, exc, names=item.get("names", "none"))
     out["kind"] = "cons"
     out["pi"] = item.get("pi", 0)
@@ -127,7 +129,9 @@ def solve(pep):
 
 
 def run_perm(item):
+    import io, contextlib
     warnings.simplefilter("ignore")
-    pep, f, part = build(item["cls"], item["P"], item["decls"], item["order"])
+    with contextlib.redirect_stdout(io.StringIO()):
+        pep, f, part = build(item["cls"], item["P"], item["decls"], item["order"])
     st, val = solve(pep)
     return dict(st=st, val=val, ncons=len(f.list_of_class_constraints))
